@@ -19,6 +19,20 @@ for line in p.stdout.splitlines():
     if e.get("Test") and e.get("Action") in ("pass", "fail", "skip"):
         res[e["Package"] + "::" + e["Test"]] = e["Action"]
 bad = sorted(t for t in stable if res.get(t) != "pass")
+if bad:
+    # under heavy machine load a package occasionally reports nothing or a wall-clock test misses its
+    # limit: re-run just the affected packages once, alone, and take that result
+    pkgs = sorted({t.split("::")[0] for t in bad})
+    rel = ["./" + pk[len("github.com/bufbuild/protocompile"):].lstrip("/") if pk != "github.com/bufbuild/protocompile" else "." for pk in pkgs]
+    p2 = subprocess.run(["go", "test", "-json", "-vet=off", "-count=1", "-p", "1", "-timeout", "25m"] + rel, cwd=d, env=env, stdout=subprocess.PIPE, stderr=subprocess.PIPE, text=True)
+    for line in p2.stdout.splitlines():
+        try:
+            e = json.loads(line)
+        except Exception:
+            continue
+        if e.get("Test") and e.get("Action") in ("pass", "fail", "skip"):
+            res[e["Package"] + "::" + e["Test"]] = e["Action"]
+    bad = sorted(t for t in stable if res.get(t) != "pass")
 print("stable tests: %d, passing now: %d, not passing: %d" % (len(stable), len(stable) - len(bad), len(bad)))
 for t in bad[:40]:
     print("  NOT PASSING:", t, res.get(t, "missing (build failure?)"))
